@@ -2,18 +2,19 @@
 # usage: keep_seed.sh <PROP> <a|b> "<needs to manifest>" "<caught by / missed by>"
 # Re-confirms (demo fails with / passes without / suite 151 pass with) in a scratch worktree, then stores under /verif/seeded/<PROP>-<v>/
 P=$1; V=$2; NEEDS=$3; CAUGHT=$4
-D=/tmp/seed/$P/$V; O=/verif/seeded/$P-$V
-W=$(/verif/tools/mkwt.sh keep_${P}_$V)
+SEEDROOT=${SEEDROOT:-/tmp/seed}; TAG=${SEEDTAG:-}   # round 2: SEEDROOT=/tmp/seed2 SEEDTAG=r2
+D=$SEEDROOT/$P/$V; O=/verif/seeded/$P-$TAG$V
+W=$(/verif/tools/mkwt.sh keep_${P}_$TAG$V)
 git -C $W apply "$D/patch.diff" || { echo "patch does not apply to current HEAD"; git -C /repo worktree remove --force $W; exit 2; }
-(cd $D && TAHOE_SRC=$W/src timeout 900 /venv/bin/python demo.py >/tmp/seedsrc/kw.$$ 2>&1); RCW=$?
-(cd $D && TAHOE_SRC=/repo/src timeout 900 /venv/bin/python demo.py >/tmp/seedsrc/ko.$$ 2>&1); RCO=$?
+(cd $D && TAHOE_SRC=$W/src timeout 900 /venv/bin/python demo.py >/tmp/seedsrc/kw.$$.$P$V 2>&1); RCW=$?
+(cd $D && TAHOE_SRC=/repo/src timeout 900 /venv/bin/python demo.py >/tmp/seedsrc/ko.$$.$P$V 2>&1); RCO=$?
 SUITE=$(cd $W && timeout 1500 /venv/bin/python -m pytest -q -p no:cacheprovider --timeout=900 --continue-on-collection-errors 2>&1 | tail -1)
 git -C /repo worktree remove --force $W
 echo "demo with change rc=$RCW; without rc=$RCO; suite: $SUITE"
 case "$SUITE" in *"151 passed"*) ;; *) echo "SUITE NOT 151 PASSED - not keeping"; exit 3;; esac
 if [ $RCW -eq 0 ] || [ $RCO -ne 0 ]; then echo "DEMO DOES NOT DISCRIMINATE - not keeping"; exit 3; fi
-mkdir -p $O; cp $D/patch.diff $O/; cp $D/*.py $O/ 2>/dev/null; [ -f /tmp/seed/$P/minigrid.py ] && cp /tmp/seed/$P/minigrid.py $O/; cp $D/notes.md $O/ 2>/dev/null
-python3 - "$P" "$V" "$NEEDS" "$CAUGHT" "$RCW" "$RCO" "$SUITE" <<'PY'
+mkdir -p $O; cp $D/patch.diff $O/; cp $D/*.py $O/ 2>/dev/null; [ -f $SEEDROOT/$P/minigrid.py ] && cp $SEEDROOT/$P/minigrid.py $O/; cp $D/notes.md $O/ 2>/dev/null
+python3 - "$P" "$TAG$V" "$NEEDS" "$CAUGHT" "$RCW" "$RCO" "$SUITE" <<'PY'
 import json, sys, subprocess
 P, V, NEEDS, CAUGHT, RCW, RCO, SUITE = sys.argv[1:8]
 head = subprocess.check_output(["git", "-C", "/repo", "log", "-1", "--format=%h"]).decode().strip()
@@ -24,5 +25,5 @@ json.dump({"property": P, "variant": V, "breaks": "see notes.md (written by the 
            "check_result": CAUGHT, "how_checked": "tools/try_seed.sh: ./check %s --tier quick with VERIF_REPO_SRC=<patched worktree>/src" % P},
           open("/verif/seeded/%s-%s/meta.json" % (P, V), "w"), indent=1)
 PY
-rm -f /tmp/seedsrc/kw.$$ /tmp/seedsrc/ko.$$
+rm -f /tmp/seedsrc/kw.$$.$P$V /tmp/seedsrc/ko.$$.$P$V
 echo kept $O
